@@ -26,7 +26,12 @@ pub struct RocCase {
     pub labels: Vec<bool>,
     /// sort keys of the common permutation (empty => reversal)
     pub perm: Vec<u16>,
+    /// bit i set and scores[i] == 0 => sample i is scored -0.0 (the second spelling of the boundary 0)
+    #[serde(default)]
+    pub neg_zero_mask: u64,
 }
+
+pub const NEG_ZERO_BITS: u32 = 0x8000_0000;
 
 fn score(k: u32) -> f32 {
     k.min(DEN) as f32 / DEN as f32
@@ -57,11 +62,17 @@ fn observe_array(p: &Array1<Pr>, y: &[bool], obs: &mut Obs, what: &str) -> Optio
 }
 
 pub fn check(c: &RocCase, obs: &mut Obs) {
-    let s: Vec<f32> = c.scores.iter().map(|&k| score(k)).collect();
+    let s: Vec<f32> = c
+        .scores
+        .iter()
+        .enumerate()
+        .map(|(i, &k)| if k == 0 && i < 64 && (c.neg_zero_mask >> i) & 1 == 1 { -0.0f32 } else { score(k) })
+        .collect();
     check_scores(&s, &c.labels, &c.perm, obs)
 }
 
-/// Scores given as raw f32 bit patterns (clamped into [0,1]): adjacent floats, scores a few ulps apart.
+/// Scores given as raw f32 bit patterns (clamped into [0,1]; 0x8000_0000 = -0.0 is kept): adjacent floats,
+/// scores a few ulps apart, signed zeros.
 #[derive(Debug, Clone, Serialize, Deserialize)]
 pub struct NearCase {
     pub bits: Vec<u32>,
@@ -73,7 +84,7 @@ pub struct NearCase {
 pub const ONE_BITS: u32 = 0x3f80_0000;
 
 pub fn check_near(c: &NearCase, obs: &mut Obs) {
-    let s: Vec<f32> = c.bits.iter().map(|&b| f32::from_bits(b.min(ONE_BITS))).collect();
+    let s: Vec<f32> = c.bits.iter().map(|&b| if b == NEG_ZERO_BITS { -0.0f32 } else { f32::from_bits(b.min(ONE_BITS)) }).collect();
     check_scores(&s, &c.labels, &c.perm, obs)
 }
 
@@ -130,10 +141,19 @@ fn check_scores(s: &[f32], labels: &[bool], perm_keys: &[u16], obs: &mut Obs) {
     // distinct scores closer than linfa's absolute merge threshold / closer than a few ulps
     let near_pair = |lim: f32| distinct.windows(2).any(|w| w[1] - w[0] <= lim);
     let within_merge = near_pair(MERGE);
-    let adjacent = distinct.windows(2).any(|w| w[1].to_bits() - w[0].to_bits() <= 4);
-    let cross_adjacent = (0..n).any(|i| {
-        (0..n).any(|j| y[i] != y[j] && s[i] != s[j] && (s[i].to_bits() as i64 - s[j].to_bits() as i64).abs() <= 4)
-    });
+    // position on the non-negative float line (-0.0 and +0.0 are the same point)
+    let ub = |v: f32| -> i64 { if v == 0.0 { 0 } else { v.to_bits() as i64 } };
+    let adjacent = distinct.windows(2).any(|w| ub(w[1]) - ub(w[0]) <= 4);
+    let cross_adjacent = (0..n).any(|i| (0..n).any(|j| y[i] != y[j] && s[i] != s[j] && (ub(s[i]) - ub(s[j])).abs() <= 4));
+    let negz = |v: f32| v == 0.0 && v.is_sign_negative();
+    let posz = |v: f32| v == 0.0 && v.is_sign_positive();
+    let has_negz = s.iter().any(|v| negz(*v));
+    let mixed_zeros = has_negz && s.iter().any(|v| posz(*v));
+    let zeros_across_classes = (0..n).any(|i| (0..n).any(|j| y[i] != y[j] && negz(s[i]) && posz(s[j])));
+    obs.class_if(has_negz, "score_negative_zero");
+    obs.class_if(mixed_zeros, "negative_and_positive_zero");
+    obs.class_if(zeros_across_classes, "negative_and_positive_zero_across_classes");
+    obs.class_if(has_negz && s.iter().any(|v| *v > 0.0), "negative_zero_below_positive_score");
     obs.class_if(adjacent, "distinct_scores_within_4_ulps");
     obs.class_if(cross_adjacent, "positive_and_negative_within_4_ulps");
     obs.class_if(within_merge, "distinct_scores_within_1e-10");
@@ -295,29 +315,43 @@ fn check_scores(s: &[f32], labels: &[bool], perm_keys: &[u16], obs: &mut Obs) {
 // ------------------------------------------------------------------------------------------------
 // generators
 
-/// every (score, label) vector of length 2..=max over scores {0, 1/2, 1} with both classes present
+/// every (score, label) vector over scores {-0.0, +0.0, 1/2, 1} of length 2..=5 (6 thorough) with both
+/// classes present; thorough adds the vectors of length 7 over {+0.0, 1/2, 1}
 pub fn enum_cases(t: Tier) -> Vec<RocCase> {
-    let max = t.pick(5usize, 7usize);
-    let grid = [0u32, DEN / 2, DEN];
+    // (numerator, negative zero)
+    let grid4 = [(0u32, true), (0u32, false), (DEN / 2, false), (DEN, false)];
+    let grid3 = [(0u32, false), (DEN / 2, false), (DEN, false)];
     let mut out = vec![];
-    for len in 2..=max {
-        let total = 6usize.pow(len as u32);
+    let mut push_all = |grid: &[(u32, bool)], len: usize| {
+        let base = grid.len() * 2;
+        let total = base.pow(len as u32);
         for code in 0..total {
             let mut c = code;
             let mut scores = Vec::with_capacity(len);
             let mut labels = Vec::with_capacity(len);
-            for _ in 0..len {
-                let d = c % 6;
-                c /= 6;
-                scores.push(grid[d / 2]);
+            let mut mask = 0u64;
+            for i in 0..len {
+                let d = c % base;
+                c /= base;
+                let (k, neg) = grid[d / 2];
+                scores.push(k);
+                if neg {
+                    mask |= 1 << i;
+                }
                 labels.push(d % 2 == 1);
             }
             let npos = labels.iter().filter(|b| **b).count();
             if npos == 0 || npos == len {
                 continue;
             }
-            out.push(RocCase { scores, labels, perm: vec![] });
+            out.push(RocCase { scores, labels, perm: vec![], neg_zero_mask: mask });
         }
+    };
+    for len in 2..=t.pick(5usize, 6usize) {
+        push_all(&grid4, len);
+    }
+    if t == Tier::Thorough {
+        push_all(&grid3, 7);
     }
     out
 }
@@ -352,14 +386,23 @@ pub fn strategy(_t: Tier) -> impl Strategy<Value = RocCase> {
         any::<u16>(),
         any::<u16>(),
         proptest::collection::vec(any::<u16>(), 40),
+        // every zero score is spelled -0.0 where its bit is set: mixtures of both zeros arise freely
+        prop_oneof![Just(0u64), any::<u64>(), any::<u64>()],
     )
-        .prop_map(|(n, scores, labels, a, b, perm)| {
+        .prop_map(|(n, scores, labels, a, b, perm, mask)| {
             let scores: Vec<u32> = scores.into_iter().take(n).collect();
             let labels: Vec<bool> = labels.into_iter().take(n).collect();
             let perm: Vec<u16> = perm.into_iter().take(n).collect();
-            (scores, labels, a, b, perm)
+            // keep only the bits that matter (canonical case, shrinks to 0)
+            let mut m = 0u64;
+            for (i, k) in scores.iter().enumerate() {
+                if *k == 0 && (mask >> i) & 1 == 1 {
+                    m |= 1 << i;
+                }
+            }
+            (scores, labels, a, b, perm, m)
         })
-        .prop_map(|(scores, mut labels, a, b, perm)| {
+        .prop_map(|(scores, mut labels, a, b, perm, neg_zero_mask)| {
             // both classes present (n >= 2): overwrite one position only when a class is missing
             let n = labels.len();
             if !labels.iter().any(|x| *x) {
@@ -367,7 +410,7 @@ pub fn strategy(_t: Tier) -> impl Strategy<Value = RocCase> {
             } else if labels.iter().all(|x| *x) {
                 labels[idx(b, n)] = false;
             }
-            RocCase { scores, labels, perm }
+            RocCase { scores, labels, perm, neg_zero_mask }
         })
 }
 
@@ -388,7 +431,7 @@ fn offset_bits(base: u32, off: i32) -> u32 {
 }
 
 /// every vector of length 2..=max whose elements are (base + {0,1,2} ulps, label), for bases at
-/// magnitudes from 1 down to 1e-6 plus 0 and 1, both classes present
+/// magnitudes from 1 down to 1e-6 plus 0 and 1, and over {-0.0, +0.0, smallest positive float}, both classes present
 pub fn enum_near_cases(t: Tier) -> Vec<NearCase> {
     let max = t.pick(4usize, 5usize);
     let bases: Vec<u32> = vec![
@@ -403,6 +446,8 @@ pub fn enum_near_cases(t: Tier) -> Vec<NearCase> {
         1.0e-6f32.to_bits(),
         0,
         ONE_BITS - 2,
+        // signed zeros: the three "offsets" are -0.0, +0.0 and the smallest positive float
+        NEG_ZERO_BITS,
     ];
     let mut out = vec![];
     for base in bases {
@@ -415,7 +460,7 @@ pub fn enum_near_cases(t: Tier) -> Vec<NearCase> {
                 for _ in 0..len {
                     let d = c % 6;
                     c /= 6;
-                    bits.push(offset_bits(base, (d / 2) as i32));
+                    bits.push(if base == NEG_ZERO_BITS { [NEG_ZERO_BITS, 0, 1][d / 2] } else { offset_bits(base, (d / 2) as i32) });
                     labels.push(d % 2 == 1);
                 }
                 let npos = labels.iter().filter(|b| **b).count();
@@ -436,7 +481,7 @@ pub fn near_strategy(_t: Tier) -> impl Strategy<Value = NearCase> {
         proptest::collection::vec((0u8..=23, 0u32..(1 << 23)), 3),
         1usize..=3,
         // per element: which base, offset in ulps (-4..=4), and a rare unrelated fine score
-        proptest::collection::vec((any::<u16>(), -4i32..=4, 0u8..10, 0u32..=DEN), 24),
+        proptest::collection::vec((any::<u16>(), -4i32..=4, 0u8..10, 0u32..=DEN, any::<bool>()), 24),
         proptest::collection::vec(any::<bool>(), 24),
         any::<u16>(),
         any::<u16>(),
@@ -446,12 +491,18 @@ pub fn near_strategy(_t: Tier) -> impl Strategy<Value = NearCase> {
             let bits: Vec<u32> = elems
                 .into_iter()
                 .take(n)
-                .map(|(which, off, other, fine)| {
-                    if other == 0 {
+                .map(|(which, off, other, fine, neg)| {
+                    let b = if other == 0 {
                         score(fine).to_bits()
                     } else {
                         let (k, mant) = bases[idx(which, nb)];
                         offset_bits(base_bits(k, mant), off)
+                    };
+                    // a zero score is spelled -0.0 half of the time
+                    if b == 0 && neg {
+                        NEG_ZERO_BITS
+                    } else {
+                        b
                     }
                 })
                 .collect();
